@@ -77,13 +77,13 @@ fn main() {
         return;
     }
     if let Some(idx) = run {
-        child(&progs[idx], pb, timeouts);
+        child(&progs[idx], pb, timeouts, if tier == "thorough" { 1_500_000 } else { 250_000 });
         return;
     }
     std::process::exit(parent(&family, &tier, &progs, merge));
 }
 
-fn child(p: &Program, pb: usize, timeouts: usize) {
+fn child(p: &Program, pb: usize, timeouts: usize, cap_secs: u64) {
     util::silence_panics();
     // loom failures can end in a double panic (abort): leave the first message on stderr for the parent
     let prev = std::panic::take_hook();
@@ -100,6 +100,8 @@ fn child(p: &Program, pb: usize, timeouts: usize) {
         let mut b = loom::model::Builder::new();
         b.preemption_bound = Some(pb);
         b.max_branches = 200_000;
+        // (loom's max_duration reads Instant::now(), which is the frozen virtual clock here)
+        b.max_permutations = Some(cap_secs as usize);
         b.check(move || {
             obs2.schedules.fetch_add(1, std::sync::atomic::Ordering::Relaxed);
             programs::execute(&p2, timeouts, &obs2);
@@ -117,6 +119,7 @@ fn child(p: &Program, pb: usize, timeouts: usize) {
                 "ticker_outlived_finish": obs.ticker_outlived_finish.load(std::sync::atomic::Ordering::Relaxed),
                 "frames_checked": obs.frames_checked.load(std::sync::atomic::Ordering::Relaxed),
                 "wall_s": clock::wall_s() - t0,
+                "capped": obs.schedules.load(std::sync::atomic::Ordering::Relaxed) >= cap_secs,
             })
         }
         Err(msg) => json!({
@@ -205,8 +208,21 @@ fn parent(family: &str, tier: &str, progs: &[Program], merge: Option<String>) ->
             running.push((i, k, spawn(i, k)));
             next += 1;
         }
-        let (i, k, c) = running.remove(0);
-        results.push(collect(i, k, c));
+        // collect whichever child has finished (no head-of-line blocking behind a long program)
+        let mut done = None;
+        for (idx, r) in running.iter_mut().enumerate() {
+            if let Ok(Some(_)) = r.2.try_wait() {
+                done = Some(idx);
+                break;
+            }
+        }
+        match done {
+            Some(idx) => {
+                let (i, k, c) = running.remove(idx);
+                results.push(collect(i, k, c));
+            }
+            None => std::thread::sleep(std::time::Duration::from_millis(5)),
+        }
     }
 
     // classify
@@ -217,6 +233,7 @@ fn parent(family: &str, tier: &str, progs: &[Program], merge: Option<String>) ->
     let mut classes: BTreeMap<String, (u64, Value)> = BTreeMap::new();
     let mut machinery: Vec<String> = Vec::new();
     let mut samples: Vec<Value> = Vec::new();
+    let mut capped: Vec<String> = Vec::new();
     for (i, k, r) in &results {
         let p = &progs[*i];
         match r {
@@ -239,6 +256,9 @@ fn parent(family: &str, tier: &str, progs: &[Program], merge: Option<String>) ->
                 frames += v["frames_checked"].as_u64().unwrap_or(0);
                 max_ticks = max_ticks.max(v["max_ticker_ticks"].as_u64().unwrap_or(0));
                 outlived += v["ticker_outlived_finish"].as_u64().unwrap_or(0);
+                if v["capped"].as_bool().unwrap_or(false) {
+                    capped.push(format!("{} (k={k}): stopped after {} schedules", p.describe(), v["schedules"]));
+                }
                 if v["ok"].as_bool().unwrap_or(false) {
                     programs_ok += 1;
                     if v["outcomes"].as_u64().unwrap_or(0) <= 1 && v["schedules"].as_u64().unwrap_or(0) > 1 {
@@ -296,7 +316,8 @@ fn parent(family: &str, tier: &str, progs: &[Program], merge: Option<String>) ->
         "known_findings": known_hit.iter().map(|k| json!({"class": k.0, "what": k.1, "instances": k.2})).collect::<Vec<_>>(),
         "violation_classes": new_v.iter().map(|v| json!({"class": v.0["class"], "instances": v.1})).collect::<Vec<_>>(),
         "machinery_errors": machinery,
-        "exhaustive": machinery.is_empty(),
+        "caps_hit": capped,
+        "exhaustive": machinery.is_empty() && capped.is_empty(),
     });
     let prop = family_property(family);
     let so = std::io::stdout();
